@@ -254,3 +254,135 @@ Example C16_force_times_force_is_generic :
   | None => false
   end = true.
 Proof. vm_compute. reflexivity. Qed.
+
+(* ---------------------------------------------------------------- the methods regenerated from the source *)
+(* Units/Gen_Methods.v is regenerated on every run by translator/py2gallina_units.py from the text of
+   src/pydsol/core/units.py of the tree under test (Python `ast`, fail-closed): the bodies of
+   Quantity.__mul__ / __rmul__ / __truediv__ / __rtruediv__ / __add__ / __radd__ / __sub__ / __rsub__, the
+   six comparisons, the same methods of SI, construction, _val, asSI, sisig, as_quantity, and the SI string
+   functions siunit / sidict_to_unit / str_to_sisig (their loops included).  Units/GenAgree.v proves every
+   generated definition equal to the hand-written function the theorems above are about -- for all
+   arguments of the model's closed world ([val_ok]: quantity objects are instances of classes of the
+   module, signatures have nine entries) -- and that evaluating an expression  x op y  through the
+   generated methods is [binop_eval].  [conc] is the object of the generated code a value of the model
+   stands for (an SI object carries its unit text as a stored attribute, as in the code).  So every
+   theorem above is a theorem about what the source says now; the main ones are restated over the
+   generated definitions below.  A change of the source that changes the meaning of a method (e.g.
+   dropping the signature test of SI.__sub__, /repo a7e4981) makes GenAgree.v fail to compile: the check
+   then reports the broken tie. *)
+From PV Require Import Units.Gen_Methods Units.GenAgree.
+
+Theorem C16_generated_model_is_the_proved_model : forall N,
+  (forall c q a u o, get_class gen_classes c = Some q -> val_ok gen_module o ->
+     gen_Quantity___mul__ N gen_module (GNamed c a u) (conc o) = rmap conc (q_mul N gen_module c a u o)) /\
+  (forall c q a u o, get_class gen_classes c = Some q -> val_ok gen_module o ->
+     gen_Quantity___truediv__ N gen_module (GNamed c a u) (conc o) = rmap conc (q_div N gen_module c a u o)) /\
+  (forall sg a o, List.length sg = 9%nat -> val_ok gen_module o ->
+     gen_SI___mul__ N gen_module (conc (VSI sg a)) (conc o) = rmap conc (si_mul N gen_module sg a o)) /\
+  (forall sg a o, List.length sg = 9%nat -> val_ok gen_module o ->
+     gen_SI___truediv__ N gen_module (conc (VSI sg a)) (conc o) = rmap conc (si_div N gen_module sg a o)) /\
+  (forall c a u o, gen_Quantity___add__ N gen_module (GNamed c a u) (conc o) = rmap conc (q_addsub N gen_module (fadd N) c a u o)) /\
+  (forall c a u o, gen_Quantity___sub__ N gen_module (GNamed c a u) (conc o) = rmap conc (q_addsub N gen_module (fsub N) c a u o)) /\
+  (forall sg a o, gen_SI___add__ N gen_module (conc (VSI sg a)) (conc o) = rmap conc (si_addsub N (fadd N) sg a o)) /\
+  (forall sg a o, gen_SI___sub__ N gen_module (conc (VSI sg a)) (conc o) = rmap conc (si_addsub N (fsub N) sg a o)) /\
+  (forall op c a u o, gen_cmp_Quantity N gen_module op (GNamed c a u) (conc o) = q_cmp N op c a o) /\
+  (forall op sg a o, gen_cmp_SI N gen_module op (conc (VSI sg a)) (conc o) = si_cmp N op sg a o) /\
+  (forall sg a t, gen_SI_as_quantity N gen_module (conc (VSI sg a)) (tconc t) = rmap conc (as_quantity N gen_module (VSI sg a) t)) /\
+  (forall c, gen_Quantity_sisig N gen_module c = class_sig_of gen_module c) /\
+  (forall a sg u d h t, List.length sg = 9%nat -> gen_SI_siunit N gen_module (GSI a sg u) d h t = Val (siunit sg d h t)) /\
+  (forall s, gen_SI_str_to_sisig N gen_module s = str_to_sisig s) /\
+  (forall op x y, val_ok gen_module x -> val_ok gen_module y -> gen_binop_eval N gen_module op x y = binop_eval N gen_module op x y) /\
+  (forall k, call_ok gen_module k -> gen_eval N gen_module k = eval N gen_module k).
+Proof. intros N. exact (dispatch_generated_agree N gen_module gen_sidict_wf). Qed.
+Print Assumptions C16_generated_model_is_the_proved_model.
+
+(* x * y evaluated through the generated __mul__ / __rmul__: signature = sum, SI value = product *)
+Theorem C16_generated_product_signature_and_value :
+  forall N, num_laws N -> forall x y r,
+    val_ok gen_module x -> val_ok gen_module y -> is_quantity N x = true -> is_quantity N y = true ->
+    gen_binop_eval N gen_module Mul x y = Val (OVal r) ->
+    exists sx sy ax ay,
+      sig_of N gen_module x = Some sx /\ sig_of N gen_module y = Some sy /\
+      si_of N x = Some ax /\ si_of N y = Some ay /\
+      sig_of N gen_module r = Some (sig_add sx sy) /\ si_of N r = Some (fmul N ax ay).
+Proof. intros N L. exact (gen_mul_sound N gen_module L gen_mul_table_sound gen_base_factor_one gen_sidict_wf). Qed.
+Print Assumptions C16_generated_product_signature_and_value.
+
+Theorem C16_generated_quotient_signature_and_value :
+  forall N, num_laws N -> forall x y r,
+    val_ok gen_module x -> val_ok gen_module y -> is_quantity N x = true -> is_quantity N y = true ->
+    gen_binop_eval N gen_module Div x y = Val (OVal r) ->
+    exists sx sy ax ay,
+      sig_of N gen_module x = Some sx /\ sig_of N gen_module y = Some sy /\
+      si_of N x = Some ax /\ si_of N y = Some ay /\ fiszero N ay = false /\
+      sig_of N gen_module r = Some (sig_sub sx sy) /\ si_of N r = Some (fdiv N ax ay).
+Proof. intros N L. exact (gen_div_sound N gen_module L gen_div_table_sound gen_base_factor_one gen_sidict_wf). Qed.
+Print Assumptions C16_generated_quotient_signature_and_value.
+
+(* + - and comparisons between operands of different type are refused by the generated methods *)
+Theorem C16_generated_mixed_add_sub_refused :
+  forall N op x y, val_ok gen_module x -> val_ok gen_module y -> op = Add \/ op = Sub ->
+    is_quantity N x = true \/ is_quantity N y = true ->
+    same_type N x y = false ->
+    exists e, gen_binop_eval N gen_module op x y = Raise e.
+Proof. intros N. exact (gen_mixed_add_sub_refused N gen_module gen_sidict_wf). Qed.
+Print Assumptions C16_generated_mixed_add_sub_refused.
+
+Theorem C16_generated_mixed_compare_refused :
+  forall N o x y, val_ok gen_module x -> val_ok gen_module y ->
+    is_quantity N x = true \/ is_quantity N y = true ->
+    same_type N x y = false ->
+    gen_binop_eval N gen_module (Cmp o) x y =
+      match o with CEq => Val (OBool false) | CNe => Val (OBool true) | _ => Raise TypeError end.
+Proof. intros N. exact (gen_mixed_compare_refused N gen_module gen_sidict_wf). Qed.
+Print Assumptions C16_generated_mixed_compare_refused.
+
+(* the guard of the generated SI.__add__ and SI.__sub__: SI values with different signatures are refused *)
+Theorem C16_generated_si_add_sub_refuse_other_signature :
+  forall N sg sg2 (a b : num N), sig_eqb sg sg2 = false ->
+    gen_SI___add__ N gen_module (conc (VSI sg a)) (conc (VSI sg2 b)) = Raise ValueError /\
+    gen_SI___sub__ N gen_module (conc (VSI sg a)) (conc (VSI sg2 b)) = Raise ValueError.
+Proof. intros N. exact (gen_si_add_sub_signature_guard N gen_module). Qed.
+Print Assumptions C16_generated_si_add_sub_refuse_other_signature.
+
+Theorem C16_generated_generic_si_converts_iff_signatures_match :
+  forall N, num_laws N -> forall sg a c q, get_class gen_classes c = Some q ->
+    ((exists g, gen_SI_as_quantity N gen_module (conc (VSI sg a)) (TNamed c) = Val g) <-> cls_sig q = sg) /\
+    (cls_sig q = sg -> exists b, qc_base q = GStr b /\
+                                 gen_SI_as_quantity N gen_module (conc (VSI sg a)) (TNamed c) = Val (GNamed c a b)) /\
+    (cls_sig q <> sg -> gen_SI_as_quantity N gen_module (conc (VSI sg a)) (TNamed c) = Raise ValueError).
+Proof. intros N L. exact (gen_as_quantity_iff N gen_module L gen_base_factor_one gen_sidict_wf). Qed.
+Print Assumptions C16_generated_generic_si_converts_iff_signatures_match.
+
+(* the generated printer followed by the generated parser gives the signature back *)
+Theorem C16_generated_si_string_round_trip :
+  forall N (a : num N) u sig d h t,
+    List.length sig = 9%nat -> Forall (fun v => (-9 <= v <= 9)%Z) sig ->
+    h = "" \/ h = "^" -> t = "" \/ t = "." ->
+    (do s <- gen_SI_siunit N gen_module (GSI a sig u) d h t; gen_SI_str_to_sisig N gen_module s) = Val sig.
+Proof. intros N. exact (gen_parse_print N gen_module). Qed.
+Print Assumptions C16_generated_si_string_round_trip.
+
+(* non-vacuity: real values are in the closed world, and the generated methods compute Speed * Duration = Length *)
+Example C16_generated_speed_times_duration_is_length :
+  match find_class gen_classes "Speed", find_class gen_classes "Duration", find_class gen_classes "Length" with
+  | Some sp, Some du, Some le =>
+      R_eqb float_ops
+        (gen_binop_eval float_ops gen_module Mul (@VNamed float_ops sp 2%float "m/s") (@VNamed float_ops du 3%float "s"))
+        (Val (OVal (@VNamed float_ops le 6%float "m")))
+  | _, _, _ => false
+  end = true.
+Proof. vm_compute. reflexivity. Qed.
+
+Example C16_generated_closed_world_inhabited :
+  exists sp, find_class gen_classes "Speed" = Some sp /\
+    val_ok gen_module (@VNamed float_ops sp 2%float "m/s") /\ val_ok gen_module (@VSI float_ops [0;0;0;1;-1;0;0;0;0]%Z 2%float).
+Proof. eexists. split; [vm_compute; reflexivity|]. split; [simpl; eexists; vm_compute; reflexivity|reflexivity]. Qed.
+
+(* the closed world is closed under the operators: what an expression returns satisfies [val_ok] again, so the
+   hypotheses of the theorems above stay satisfied along a computation *)
+Theorem C16_generated_closed_world_is_closed :
+  forall N op x y r, val_ok gen_module x -> val_ok gen_module y ->
+    gen_binop_eval N gen_module op x y = Val (OVal r) -> val_ok gen_module r.
+Proof. intros N. exact (gen_binop_eval_closed N gen_module gen_sidict_wf). Qed.
+Print Assumptions C16_generated_closed_world_is_closed.
